@@ -122,7 +122,9 @@ class BankMachine(Module):
             req.connect(cmd_buffer_lookahead.sink, keep={"valid", "ready", "we", "addr"}),
             cmd_buffer_lookahead.source.connect(cmd_buffer.sink),
             cmd_buffer.source.ready.eq(req.wdata_ready | req.rdata_valid),
-            req.lock.eq(cmd_buffer_lookahead.source.valid | cmd_buffer.source.valid),
+            # With a buffered FIFO, source.valid rises one cycle after the command is accepted: also use the FIFO level
+            # (level is a constant 0 on FIFOs of depth < 2, where source.valid has no such delay).
+            req.lock.eq(cmd_buffer_lookahead.source.valid | (cmd_buffer_lookahead.level != 0) | cmd_buffer.source.valid),
         ]
 
         slicer = _AddressSlicer(settings.geom.colbits, address_align)
